@@ -639,7 +639,7 @@ func genPatherDaemon(c *lib.Ctx) {
 	history(0, []string{"a", "a"}, 2, 1, 2, []pdScriptGen{good(0, 1), good(1, 0)})                                        // via StartPather
 	history(3, []string{"b", "a"}, 4, 2, 6, []pdScriptGen{good(0, 1, 2, 3, 4, 5), good(5, 4, 3), good(0, 1, 2, 3, 4, 5)}) // via StartPather
 	c.Comment("pd random histories")
-	for i := 0; i < c.Scale(60, 1500); i++ {
+	for i := 0; i < c.Scale(60, 600); i++ {
 		if lateRounds >= 8 {
 			c.Count("round:skipped-after-late-rounds")
 			break
